@@ -19,7 +19,7 @@ META = {
              'explicit start/end, ..., producing message kind).'),
     'exhaustive_part': 'explicit StoryStarted/StoryEnded subsets complete for n<=4 (thorough) / n<=3 (quick)',
     'workers': {'quick': 12, 'thorough': 16},
-    'watchdog': {'quick': 300, 'thorough': 1800},
+    'watchdog': {'quick': 600, 'thorough': 3600},
     'assumptions': ['more than one mosExternalMetadata block per story, non-numeric durations, unparseable times and '
                     'duplicate story IDs are outside the claim'],
 }
